@@ -66,8 +66,14 @@ class ScriptedAgent:
     """f(requested_oid, repetition_index) -> oid tuple | None (endOfMibView) | EMPTY
     (the whole response carries no bindings at all)."""
 
-    def __init__(self, f):
+    def __init__(self, f, value_kind="int", trunc=0):
         self.f = f
+        # the model fixes which OID comes back; the VALUE bound to it may be anything,
+        # also an exception marker on a non-advancing OID
+        self.value = {"int": ("int", 1), "nsi": ("nsi", None), "nso": ("nso", None), "str": ("str", b"")}[value_kind]
+        # bulk: drop this many trailing bindings (a capped / truncated response whose
+        # last repetition is incomplete)
+        self.trunc = trunc
         self.revealed = set()
         self.trace = []  # (pdu type, [requested], [answered])
         self.requested_log = []
@@ -92,7 +98,7 @@ class ScriptedAgent:
                 if nxt is None or nxt == EMPTY:
                     out.append((oid, ("eomv", None)))
                 else:
-                    out.append((nxt, ("int", 1)))
+                    out.append((nxt, self.value))
                     self.revealed.add(nxt)
                     if not oid < nxt:
                         self.first_rep_fault = True
@@ -107,7 +113,7 @@ class ScriptedAgent:
                     if nxt is None or nxt == EMPTY:
                         out.append((cur[j], ("eomv", None)))
                     else:
-                        out.append((nxt, ("int", 1)))
+                        out.append((nxt, self.value))
                         self.revealed.add(nxt)
                         if not cur[j] < nxt:
                             if rep == 0:
@@ -115,6 +121,10 @@ class ScriptedAgent:
                             else:
                                 self.later_rep_fault = True
                         cur[j] = nxt
+            if self.trunc and len(req) > 1 and len(out) > len(req):
+                keep = max(len(req), len(out) - self.trunc)
+                # bindings that are cut off were never revealed / never faulty
+                out = out[:keep]
         else:
             return None
         self.trace.append((pdu["type"], tuple(req), tuple((o, v[0]) for o, v in out)))
@@ -148,7 +158,7 @@ def chain_oracle(f, root):
 def run_op(R, fdesc, f, op, mode, bulk, roots=(ROOT,), state=None):
     """state: [client, seam] of an earlier run_op - the SAME client runs the operation
     again against a fresh agent following the same function."""
-    agent = ScriptedAgent(f)
+    agent = ScriptedAgent(f, fdesc.get("value_kind", "int"), fdesc.get("trunc", 0))
     if state:
         client, seam = state
         seam.reset()
@@ -197,6 +207,10 @@ def run_op(R, fdesc, f, op, mode, bulk, roots=(ROOT,), state=None):
         R.mon["faulty_first_rep_seen"] += 1
     if agent.later_rep_fault:
         R.mon["faulty_later_rep_seen"] += 1
+    if fdesc.get("trunc"):
+        # the agent cut bindings off after evaluating the function: which fault the
+        # client could still see is not pinned; termination and no re-request are
+        agent.later_rep_fault = agent.later_rep_fault or agent.first_rep_fault
     is_bulk = op in ("bulkwalk", "bulktable")
     mech = None
     if is_bulk and (agent.first_rep_fault or agent.later_rep_fault):
@@ -211,6 +225,13 @@ def run_op(R, fdesc, f, op, mode, bulk, roots=(ROOT,), state=None):
     if rereq:
         R.violation(case, "OIDs requested in more than one request: %r" % (rereq[:4],), mech)
         return
+    if fdesc.get("value_kind") in ("nsi", "nso") and res[0] == "exc" and not isinstance(res[1], FaultySNMPImplementation):
+        # exception markers as VALUES of get-next answers are outside every standard; the
+        # statement pins termination, no re-request and the reaction to non-advancing OIDs,
+        # not which exception such values provoke (x690 markers are neither equal nor
+        # orderable, sorting them raises TypeError).  The operation ended: accepted.
+        R.mon["marker_values_ended_with_other_exception"] += 1
+        return
     if getattr(agent, "empty_responses", 0):
         # a response without any binding: a GETNEXT-based operation refuses it (count
         # mismatch), a bulk operation may take it for a truncated answer; what matters
@@ -218,7 +239,7 @@ def run_op(R, fdesc, f, op, mode, bulk, roots=(ROOT,), state=None):
         R.mon["empty_response_cases"] += 1
         return
     faulty_exc = res[0] == "exc" and isinstance(res[1], FaultySNMPImplementation)
-    if agent.first_rep_fault:
+    if agent.first_rep_fault and not fdesc.get("trunc"):
         if mode == "warn":
             if res[0] != "ok":
                 R.violation(case, "lenient mode: expected a normal end, got %r" % (res[1],), mech)
@@ -375,6 +396,10 @@ def sampled(R, n):
             return table.get((oid, min(rep, 2) if repdep else 0))
 
         fdesc = {"kind": "sampled", "index": i, "seed": R.seed, "U": [list(u) for u in U], "repdep": repdep}
+        if two and rng.random() < 0.5:
+            fdesc["trunc"] = rng.choice((1, 1, 2, 3))
+        if rng.random() < 0.3:
+            fdesc["value_kind"] = rng.choice(("nsi", "nso", "str"))
         if two:
             for op, mode, bulk in (("multiwalk", "strict", None), ("multiwalk", "warn", None), ("bulkwalk", "strict", 2), ("bulkwalk", "strict", 10)):
                 run_op(R, fdesc, f, op, mode, bulk, roots=roots)
@@ -393,6 +418,9 @@ def run(R):
                 state = []
                 run_op(R, fdesc, table_f(mapping), op, mode, bulk, state=state)
                 run_op(R, dict(fdesc, second_run=True), table_f(mapping), op, mode, bulk, state=state)
+                # the same OIDs bound to other values (exception markers, empty string)
+                for vk in ("nsi", "nso", "str"):
+                    run_op(R, dict(fdesc, value_kind=vk), table_f(mapping), op, mode, bulk)
             R.mon["named_families"] += 1
     for name, f in repdep_families():
         if R.shard == 0:
@@ -400,6 +428,23 @@ def run(R):
             for op, mode, bulk in OPS:
                 run_op(R, fdesc, f, op, mode, bulk)
             R.mon["named_families"] += 1
+    if R.shard == 0:
+        # two roots, GETBULK answers cut inside the last repetition, and the binding that
+        # does not advance sits in that incomplete repetition
+        ins = IN[:4]
+        succ0 = {ROOT: ins[1], ins[0]: ins[1], ins[1]: ins[2], ins[2]: ins[3], ROOT2: IN2[0], IN2[0]: IN2[1]}
+        for back_to in (ins[0], ins[1], ROOT):
+            def f2(oid, rep, back_to=back_to):
+                if rep == 0:
+                    return succ0.get(oid)
+                if oid[: len(ROOT)] == ROOT:
+                    return back_to  # later repetitions of the first column go BACK
+                return succ0.get(oid)
+            for trunc in (1, 3):
+                for bulk in (2, 3):
+                    fdesc = {"kind": "named-two-root-truncated", "name": "back-to-%s" % (back_to,), "repdep": True, "trunc": trunc, "back_to": list(back_to)}
+                    run_op(R, fdesc, f2, "bulkwalk", "strict", bulk, roots=(ROOT, ROOT2))
+                    R.mon["two_root_truncated_families"] += 1
     complete = True
     sizes = (2, 3) if R.tier == "quick" else (2, 3, 4)
     for k in sizes:
@@ -437,6 +482,19 @@ def replay(R, v):
         if fd.get("second_run"):
             run_op(R, fd, table_f(mapping), c["op"], c["mode"], c["bulk"], roots=tuple(tuple(r) for r in c["roots"]), state=state)
         run_op(R, fd, table_f(mapping), c["op"], c["mode"], c["bulk"], roots=tuple(tuple(r) for r in c["roots"]), state=state)
+    elif fd["kind"] == "named-two-root-truncated":
+        ins = IN[:4]
+        succ0 = {ROOT: ins[1], ins[0]: ins[1], ins[1]: ins[2], ins[2]: ins[3], ROOT2: IN2[0], IN2[0]: IN2[1]}
+        back_to = tuple(fd["back_to"])
+
+        def f2(oid, rep):
+            if rep == 0:
+                return succ0.get(oid)
+            if oid[: len(ROOT)] == ROOT:
+                return back_to
+            return succ0.get(oid)
+
+        run_op(R, fd, f2, c["op"], c["mode"], c["bulk"], roots=tuple(tuple(r) for r in c["roots"]))
     elif fd["kind"] == "named-repdep":
         f = dict(repdep_families())[fd["name"]]
         run_op(R, fd, f, c["op"], c["mode"], c["bulk"], roots=tuple(tuple(r) for r in c["roots"]))
